@@ -265,7 +265,8 @@ def render_multi(case):
     for i, f in enumerate(case["files"]):
         lines = []
         if f["header_noise"]:
-            lines += ['"""module docstring with snapshot( inside"""', "import os  # ünïcödé", ""]
+            lines += ['"""module docstring with snapshot( inside"""', "from __future__ import annotations",
+                      "import os  # ünïcödé", ""]
         lines += ["from inline_snapshot import snapshot, outsource"]
         if f["has_import"]:
             lines += ["from inline_snapshot import external", "from inline_snapshot import HasRepr"]
@@ -322,6 +323,8 @@ def check_multi(case):
             b = oracles.masked(oracles.strip_added_imports(before, now), None)
         except Exception as e:
             raise Violation("unparsable", f"{name}: {e}\n{now}")
+        if ast.get_docstring(ast.parse(before)) != ast.get_docstring(ast.parse(now)):
+            raise Violation("module-docstring-lost", f"F={case['F']} {name}\n--- before\n{before}\n--- after\n{now}")
         if a != b:
             raise Violation("bytes-changed-outside-arguments",
                             f"F={case['F']} {name} changed outside its snapshot arguments (only the import of a name the new "
